@@ -62,6 +62,10 @@ static void blk_binary(void) {
 					if (i == j && !bad) { sm2_z256_modn_sqr(r, a); bad = memcmp(r, e, 32) ? 2 : 0; } break;
 				}
 				vh_evals++; vh_nontriv++; /* (i,j) pairs are distinct by construction */
+				/* the same call with the result written over an operand (the library itself calls these routines that way): r==a, r==b, and r==a==b on the diagonal */
+				if (!bad && f >= F_ADD && f != F_MUL && f != F_CMP && f != F_EQU && (vh_thorough || ((i + j) & 3) == 0)) { for (int al = 0; al < 2; al++) { uint64_t t[4], u[4]; memcpy(t, al ? b : a, 32); memcpy(u, al ? a : b, 32); const uint64_t *pa = al ? u : t, *pb = al ? t : u; if (i == j && al) { pa = t; pb = t; }
+					switch (f) { case F_ADD: sm2_z256_add(t, pa, pb); break; case F_SUB: sm2_z256_sub(t, pa, pb); break; case F_PADD: sm2_z256_modp_add(t, pa, pb); break; case F_PSUB: sm2_z256_modp_sub(t, pa, pb); break; case F_PMMUL: sm2_z256_modp_mont_mul(t, pa, pb); break; case F_NADD: sm2_z256_modn_add(t, pa, pb); break; case F_NSUB: sm2_z256_modn_sub(t, pa, pb); break; case F_NMMUL: sm2_z256_modn_mont_mul(t, pa, pb); break; case F_NMUL: sm2_z256_modn_mul(t, pa, pb); break; default: break; }
+					vh_evals++; if (memcmp(t, e, 32)) { char key[96]; snprintf(key, sizeof key, "C13:%s:result-over-operand-%s", BN_NAMES[f], (i == j && al) ? "both" : al ? "b" : "a"); vh_viol(key, "\"a\":\"%s\",\"b\":\"%s\",\"got\":\"%s\",\"exp\":\"%s\"", lhex(a), lhex(b), lhex(t), lhex(e)); break; } } }
 				if (bad) { char key[96]; snprintf(key, sizeof key, "C13:%s%s", BN_NAMES[f], bad == 2 ? ":sqr" : ""); vh_viol(key, "\"a\":\"%s\",\"b\":\"%s\",\"got\":\"%s\",\"exp\":\"%s\",\"carry\":%llu,\"expcarry\":%llu", lhex(a), lhex(b), lhex(r), lhex(e), (unsigned long long)c, (unsigned long long)ec); }
 			}
 			if ((i & 63) == 0) vh_sample("{\"block\":\"%s\",\"a\":\"%s\",\"pairs_with_all_b\":%zu}", bn, lhex(OPS[i]), NOPS);
@@ -155,6 +159,7 @@ static void blk_points(void) {
 		if (j < 0) { /* unary */
 			sm2_z256_point_dbl(&r, &LPT[i]); EC_POINT_dbl(g, e, RPT[i], c); vh_eval(vh_mix(i + 1)); if (!pt_eq(&r, e)) pt_fail("point_dbl", i, -1, &r);
 			sm2_z256_point_neg(&r, &LPT[i]); EC_POINT_copy(e, RPT[i]); EC_POINT_invert(g, e, c); vh_eval(vh_mix(i + 101)); if (!pt_eq(&r, e)) pt_fail("point_neg", i, -1, &r);
+			r = LPT[i]; sm2_z256_point_neg(&r, &r); vh_eval(vh_mix(i + 151)); if (!pt_eq(&r, e)) pt_fail("point_neg:in-place", i, -1, &r); r = LPT[i]; sm2_z256_point_dbl(&r, &r); EC_POINT_dbl(g, e, RPT[i], c); vh_eval(vh_mix(i + 51)); if (!pt_eq(&r, e)) pt_fail("point_dbl:in-place", i, -1, &r);
 			{ int inf = sm2_z256_point_is_at_infinity(&LPT[i]); vh_eval(vh_mix(i + 201)); if ((inf == 1) != (EC_POINT_is_at_infinity(g, RPT[i]) == 1)) pt_fail("point_is_at_infinity", i, -1, &LPT[i]); }
 			{ int oc = sm2_z256_point_is_on_curve(&LPT[i]); vh_eval(vh_mix(i + 301)); if (oc != 1 && !EC_POINT_is_at_infinity(g, RPT[i])) pt_fail("point_is_on_curve", i, -1, &LPT[i]); }
 			{ uint64_t x[4], y[4]; uint8_t xy[64], exy[64]; int rr = sm2_z256_point_get_xy(&LPT[i], x, y); int er = sr_point_to_xy(RPT[i], exy); sm2_z256_to_bytes(x, xy); sm2_z256_to_bytes(y, xy + 32); vh_eval(vh_mix(i + 401));
@@ -165,11 +170,16 @@ static void blk_points(void) {
 		}
 		sm2_z256_point_add(&r, &LPT[i], &LPT[j]); EC_POINT_add(g, e, RPT[i], RPT[j], c); vh_eval(vh_mix(i * 100 + j + 1001)); if (!pt_eq(&r, e)) pt_fail("point_add", i, j, &r);
 		sm2_z256_point_sub(&r, &LPT[i], &LPT[j]); EC_POINT_copy(e, RPT[j]); EC_POINT_invert(g, e, c); EC_POINT_add(g, e, RPT[i], e, c); vh_eval(vh_mix(i * 100 + j + 2001)); if (!pt_eq(&r, e)) pt_fail("point_sub", i, j, &r);
-		{ r = LPT[i]; sm2_z256_point_add(&r, &r, &LPT[j]); EC_POINT_add(g, e, RPT[i], RPT[j], c); vh_eval(vh_mix(i * 100 + j + 2501)); if (!pt_eq(&r, e)) pt_fail("point_add:aliased", i, j, &r); }
+		{ r = LPT[i]; sm2_z256_point_add(&r, &r, &LPT[j]); EC_POINT_add(g, e, RPT[i], RPT[j], c); vh_eval(vh_mix(i * 100 + j + 2501)); if (!pt_eq(&r, e)) pt_fail("point_add:aliased", i, j, &r);
+			r = LPT[j]; sm2_z256_point_add(&r, &LPT[i], &r); vh_eval(vh_mix(i * 100 + j + 2601)); if (!pt_eq(&r, e)) pt_fail("point_add:result-over-second-operand", i, j, &r);
+			if (i == j) { r = LPT[i]; sm2_z256_point_add(&r, &r, &r); vh_eval(vh_mix(i * 100 + j + 2651)); if (!pt_eq(&r, e)) pt_fail("point_add:all-three-the-same-object", i, j, &r); }
+			EC_POINT_copy(e, RPT[j]); EC_POINT_invert(g, e, c); EC_POINT_add(g, e, RPT[i], e, c); r = LPT[i]; sm2_z256_point_sub(&r, &r, &LPT[j]); vh_eval(vh_mix(i * 100 + j + 2701)); if (!pt_eq(&r, e)) pt_fail("point_sub:result-over-first-operand", i, j, &r);
+			r = LPT[j]; sm2_z256_point_sub(&r, &LPT[i], &r); vh_eval(vh_mix(i * 100 + j + 2801)); if (!pt_eq(&r, e)) pt_fail("point_sub:result-over-second-operand", i, j, &r); }
 		/* affine second operand: normalised points only ((0,0) encodes infinity) */
 		if (j == 0 || (j >= 2 && j <= 8) || j >= 11) { SM2_Z256_AFFINE_POINT af; memset(&af, 0, sizeof af); if (j) { memcpy(af.x, LPT[j].X, 32); memcpy(af.y, LPT[j].Y, 32); }
-			sm2_z256_point_add_affine(&r, &LPT[i], &af); EC_POINT_add(g, e, RPT[i], RPT[j], c); vh_eval(vh_mix(i * 100 + j + 3001)); if (!pt_eq(&r, e)) pt_fail("point_add_affine", i, j, &r);
-			sm2_z256_point_sub_affine(&r, &LPT[i], &af); EC_POINT_copy(e, RPT[j]); EC_POINT_invert(g, e, c); EC_POINT_add(g, e, RPT[i], e, c); vh_eval(vh_mix(i * 100 + j + 4001)); if (!pt_eq(&r, e)) pt_fail("point_sub_affine", i, j, &r);
+			int ok_add = 1, ok_sub = 1; sm2_z256_point_add_affine(&r, &LPT[i], &af); EC_POINT_add(g, e, RPT[i], RPT[j], c); vh_eval(vh_mix(i * 100 + j + 3001)); if (!pt_eq(&r, e)) { ok_add = 0; pt_fail("point_add_affine", i, j, &r); }
+			sm2_z256_point_sub_affine(&r, &LPT[i], &af); EC_POINT_copy(e, RPT[j]); EC_POINT_invert(g, e, c); EC_POINT_add(g, e, RPT[i], e, c); vh_eval(vh_mix(i * 100 + j + 4001)); if (!pt_eq(&r, e)) { ok_sub = 0; pt_fail("point_sub_affine", i, j, &r); }
+			/* in place; only where the separate-buffer call is right (its failures are reported above) */ r = LPT[i]; sm2_z256_point_sub_affine(&r, &r, &af); vh_eval(vh_mix(i * 100 + j + 4501)); if (ok_sub && !pt_eq(&r, e)) pt_fail("point_sub_affine:in-place", i, j, &r); r = LPT[i]; sm2_z256_point_add_affine(&r, &r, &af); EC_POINT_add(g, e, RPT[i], RPT[j], c); vh_eval(vh_mix(i * 100 + j + 3501)); if (ok_add && !pt_eq(&r, e)) pt_fail("point_add_affine:in-place", i, j, &r);
 			if (i == 0 && j) { sm2_z256_point_copy_affine(&r, &af); vh_eval(vh_mix(j + 5001)); if (!pt_eq(&r, RPT[j])) pt_fail("point_copy_affine", j, -1, &r); } }
 		vh_sample("{\"block\":\"points\",\"a\":\"%s\",\"b\":\"%s\"}", PNAME[i], PNAME[j]);
 	}
